@@ -197,3 +197,28 @@ pub fn alpha4(k: usize) -> Note {
     _ => Note::Err(E::E0),
   }
 }
+
+/// A subscriber that stops being interested after `k` notifications: from then
+/// on `is_finished()` answers true (what `take(k)` and the other early-ending
+/// operators answer upstream once they have completed downstream).
+#[derive(Clone)]
+pub struct Sated {
+  pub probe: crate::probe::Probe,
+  pub k: usize,
+}
+
+impl Observer<V, E> for Sated {
+  fn next(&mut self, v: V) {
+    self.probe.next(v)
+  }
+  fn error(self, e: E) {
+    self.probe.error(e)
+  }
+  fn complete(self) {
+    self.probe.complete()
+  }
+  fn is_finished(&self) -> bool {
+    self.probe.len() >= self.k
+  }
+}
+
